@@ -61,6 +61,8 @@ def run_one(m, keep=False):
         expect = m["expect"]
         hit = [f for f in fired if any(f == x or f.startswith(x) for x in expect)]
         verdict = "CAUGHT" if hit else ("CAUGHT-OTHER" if fired else "MISSED")
+        if not expect:
+            verdict = "FALSE-ALARM" if fired else "SILENT-OK"
         return dict(id=m["id"], verdict=verdict, fired=sorted(fired), expect=expect, what=m.get("what", ""))
     finally:
         if not keep:
@@ -81,7 +83,7 @@ def main():
             res.append(r)
             print(f'{r["id"]:8} {r["verdict"]:13} fired={r.get("fired","")} expect={r.get("expect","")} {r.get("detail","")}', flush=True)
     tot = len(res)
-    caught = sum(r["verdict"] == "CAUGHT" for r in res)
+    caught = sum(r["verdict"] in ("CAUGHT", "SILENT-OK") for r in res)
     other = sum(r["verdict"] == "CAUGHT-OTHER" for r in res)
     print(f"\n{caught}/{tot} caught by the expected obligation, {other} by another, "
           f'{sum(r["verdict"]=="MISSED" for r in res)} missed, {sum(r["verdict"] in ("N/A","INVALID") for r in res)} n/a or invalid')
